@@ -47,6 +47,20 @@ def run(ctx):
     mod = ctx.src.mod(RP)
     fn = mod.func(Q)
     where = 'src/PseudoNetCDF/%s %s' % (RP, Q)
+    # R-CONVCALL: the per-lane function of convolve_dim is numpy's convolution (correlation mirrors an asymmetric kernel)
+    ctx.rule('R-CONVCALL', 'convolve_dim applies np.convolve(weights, lane) along the axis (np.correlate mirrors every non-palindromic kernel)')
+    cf = ctx.src.mod('core/_functions.py').func('convolve_dim')
+    wcf = 'src/PseudoNetCDF/core/_functions.py convolve_dim'
+    lanes = [c for c in ast.walk(cf) if isinstance(c, ast.Call) and (dotted(c.func) or '').split('.')[-1] in ('convolve', 'correlate', 'fftconvolve', 'convolve1d', 'correlate1d')]
+    if not lanes:
+        ctx.undec('R-CONVCALL', 'lane function', wcf, 'no convolution call found')
+    for c in lanes:
+        nm_ = (dotted(c.func) or '')
+        if nm_.split('.')[-1] in ('convolve', 'fftconvolve') and any('weights' in norm(a) for a in c.args):
+            ctx.ok('R-CONVCALL', 'lane function', wcf, norm(c)[:60])
+        else:
+            ctx.violation(Finding('R-CONVCALL', 'core/_functions.py', 'convolve_dim', api.stmt_of(c), '%s is not a convolution with the given weights: np.correlate applies the kernel mirrored, so every '
+                                  'non-palindromic kernel (0.75,0.25 / 1,-1) gives other values and a shifted coordinate' % nm_))
     vloops = [st for st in fn.body if isinstance(st, ast.For) and 'self.variables.items()' in norm(st.iter)]
     if not vloops:
         raise AnalysisError('anchor vanished: per-variable loop of applyAlongDimensions')
